@@ -28,6 +28,10 @@ type Case struct {
 	PEM  bool   `json:"pem"`
 	Via  string `json:"via"` // file | http (whole path only)
 	Exts bool   `json:"exts"`
+	// CertIssuer: every entry carries a certificateIssuer entry extension (as in an indirect CRL)
+	CertIssuer bool `json:"cert_issuer,omitempty"`
+	// Refresh: after the load the list is refreshed once more (same content) while sampling continues
+	Refresh bool `json:"refresh,omitempty"`
 }
 
 func liveHeap() uint64 {
@@ -72,13 +76,18 @@ func (c *countingConsumer) UpdateSignatureCertificate(*core.CertificateChainEntr
 
 var ca = gen.Issue(gen.CertSpec{Key: "p256a", Subject: gen.CN("c17 ca"), SerialHex: "1001", IsCA: true}, nil)
 
-func writeList(path string, n int, pem, exts bool) {
+var certIssuerExt = gen.Ext{OID: "2.5.29.29", Critical: true, Value: gen.TLV(0x30, gen.TLV(0xa4, gen.CN("c17 indirect issuer with a reasonably long distinguished name").DER()))}
+
+func writeList(path string, n int, pem, exts, certIssuer bool) {
 	spec := gen.CRLSpec{Version: 1, SigAlg: "sha256ecdsa", IssuerDER: ca.Cert.RawSubject, ThisUpdate: 1700000000, NextUpdate: 1900000000, HasExts: true,
 		Exts: []gen.Ext{gen.CRLNumberExt([]byte{1})}, N: n}
 	spec.EntryFn = func(i int) gen.Entry {
 		e := gen.Entry{SerialHex: fmt.Sprintf("9e%030x%08x", uint64(i)*0x9e3779b97f4a7c15, i), Date: 1690000000 + int64(i%100000)}
 		if exts {
 			e.Exts = []gen.Ext{gen.ReasonExt(byte(1 + i%5))}
+		}
+		if certIssuer {
+			e.Exts = append(e.Exts, certIssuerExt)
 		}
 		return e
 	}
@@ -104,7 +113,7 @@ func serialOf(i int) string {
 // measure returns the peak live heap above the baseline while processing a list of n entries.
 func measure(c Case, n int, dir string) (int64, error) {
 	listPath := filepath.Join(dir, fmt.Sprintf("list-%d", n))
-	writeList(listPath, n, c.PEM, c.Exts)
+	writeList(listPath, n, c.PEM, c.Exts, c.CertIssuer)
 	defer os.Remove(listPath)
 	debug.FreeOSMemory()
 	p := &peak{base: liveHeap()}
@@ -151,6 +160,9 @@ func measure(c Case, n int, dir string) (int64, error) {
 		close(stop)
 		<-done
 		return 0, fmt.Errorf("provisioning with a %d-entry list failed: %v", n, err)
+	}
+	if c.Refresh {
+		world.Call("refresh", 20*time.Minute, func() int { ch.VerifForceUpdate(); return 0 })
 	}
 	pki := &world.SimplePKI{Root: ca}
 	for _, i := range []int{0, n / 2, n - 1} {
@@ -206,7 +218,7 @@ func runCase(c Case, x *ev.Ctx) error {
 var spec = ev.Spec[Case]{
 	ID:  "C17",
 	Run: runCase,
-	Rule: "metamorphic in N: well-formed lists of N1 and N2 >> N1 entries (20-byte serials, reasonCode entry extensions) are written by the streaming encoder to a file (never held in memory by the harness) and processed (a) by the streaming reader with a counting consumer and (b) through the whole path provision -> (HTTP download | file copy) -> parse -> LevelDB -> lookups of first/middle/last entry; live heap (HeapAlloc right after a forced GC) is sampled every 5000 entries from inside the consumer and every 40 ms by a sampler during the whole path. Oracle: peak(N2) - peak(N1) <= 4 MiB (reader) / 16 MiB (whole path on disk; N1 is chosen large enough (>= 3*10^5 entries, 18 MB) that LevelDB's write buffers and caches are already saturated) and absolute ceilings 32 / 160 MiB; the memory back-end is measured and reported only (documented O(N)). Every size pair is non-trivial.",
+	Rule: "metamorphic in N: well-formed lists of N1 and N2 >> N1 entries (20-byte serials, reasonCode entry extensions) are written by the streaming encoder to a file (never held in memory by the harness) and processed (a) by the streaming reader with a counting consumer and (b) through the whole path provision -> (HTTP download | file copy) -> parse -> LevelDB -> (one case: + a refresh of the same list) -> lookups of first/middle/last entry; some lists carry a certificateIssuer entry extension on every entry; live heap (HeapAlloc right after a forced GC) is sampled every 5000 entries from inside the consumer and every 40 ms by a sampler during the whole path. Oracle: peak(N2) - peak(N1) <= 4 MiB (reader) / 16 MiB (whole path on disk; N1 is chosen large enough (>= 3*10^5 entries, 18 MB) that LevelDB's write buffers and caches are already saturated) and absolute ceilings 32 / 160 MiB; the memory back-end is measured and reported only (documented O(N)). Every size pair is non-trivial.",
 	Assumptions: []string{"HeapAlloc after runtime.GC() approximates live heap; the harness keeps no per-entry data"},
 }
 
@@ -215,7 +227,9 @@ func cases() []Case {
 		{Path: "reader", N1: 20000, N2: 200000, Exts: true},
 		{Path: "reader", N1: 20000, N2: 200000, PEM: true, Exts: true},
 		{Path: "whole-disk", N1: 300000, N2: 900000, Via: "http", PEM: true, Exts: true},
-		{Path: "whole-disk", N1: 300000, N2: 900000, Via: "file", Exts: false},
+		{Path: "whole-disk", N1: 300000, N2: 900000, Via: "file", Exts: false, Refresh: true},
+		{Path: "whole-disk", N1: 100000, N2: 400000, Via: "http", Exts: true, CertIssuer: true},
+		{Path: "reader", N1: 20000, N2: 200000, Exts: true, CertIssuer: true},
 		{Path: "whole-memory", N1: 20000, N2: 100000, Via: "http", Exts: true},
 	}
 	if !ev.Thorough() {
